@@ -370,9 +370,14 @@ class MultiVector:
         if func is None:
             func = self.algebra.simp_func
         if hasattr(func, '__code__') and func.__code__.co_argcount == 2:
-            keysvalues = tuple((k, v) for k, v in self.items() if func(k, v))
+            keep = tuple(bool(func(k, v)) for k, v in self.items())
         else:
-            keysvalues = tuple((k, v) for k, v in self.items() if func(v))
+            keep = tuple(bool(func(v)) for v in self.values())
+        if self.algebra.graded:
+            # In graded mode a grade is kept as a whole as long as one of its elements is kept.
+            grades = {format(k, 'b').count('1') for k, kept in zip(self.keys(), keep) if kept}
+            keep = tuple(format(k, 'b').count('1') in grades for k in self.keys())
+        keysvalues = tuple((k, v) for (k, v), kept in zip(self.items(), keep) if kept)
         if not keysvalues:
             return self.fromkeysvalues(self.algebra, keys=tuple(), values=list())
         keys, values = zip(*keysvalues)
